@@ -113,6 +113,12 @@ int main(int argc, char ** argv) {
                 long nobj = tmpl == 0 ? 0 : tmpl == 1 ? 1 : (C <= 17 ? 6 : 40);
                 long big = tmpl == 3 ? (C <= 17 ? 300 : 3 * std::min<long>(C, 0x30000)) : 200;
                 std::string fn = dir + "/w_" + std::to_string(idx++) + ".blf";
+                // the path already holds a longer, unrelated file (an earlier log): nothing of it may survive
+                if (idx % 2 == 0) {
+                    std::vector<uint8_t> old((size_t) (200000 + (rng() % 100000)));
+                    for (auto & c : old) c = (uint8_t) rng();
+                    kit::write_file(fn, old);
+                }
                 alarm(120);      // a session that does not end kills the driver: the check reports the failure
                 std::vector<uint8_t> truth;
                 long n115 = 0;
